@@ -326,6 +326,34 @@ pub fn run(ctx: &mut Ctx) {
             }
         },
     );
+    // entries encrypted by Info-ZIP `zip -e` (real producer of the time-byte variant)
+    let niz = ctx.q(120, 2500);
+    ctx.explore::<(String, Vec<(String, Content)>, bool, u8)>(
+        "infozip",
+        niz,
+        &|| ("[a-zA-Z0-9!#%+,.:=@^_~]{1,16}", proptest::collection::vec(("[a-z0-9_]{1,8}", content::content(8000)), 1..4), any::<bool>(), 0u8..=9).boxed(),
+        &|(pw, files, fd, level): &(String, Vec<(String, Content)>, bool, u8), info: &mut Info| {
+            let mut seen = std::collections::HashSet::new();
+            let files: Vec<(String, Vec<u8>)> = files.iter().filter(|(n, _)| seen.insert(n.clone())).map(|(n, c)| (n.clone(), c.expand())).collect();
+            info.nontrivial = files.iter().any(|f| !f.1.is_empty());
+            info.label_if(*fd, "-fd");
+            let mut flags = vec![format!("-{level}"), "-e".to_string(), "-P".to_string(), pw.clone()];
+            if *fd {
+                flags.push("-fd".into());
+            }
+            let r = catch(|| -> Result<(), String> {
+                let bytes = super::common::infozip_archive(&files, &flags)?;
+                for (k, (n, c)) in files.iter().enumerate() {
+                    reader_contract(&bytes, k, n, pw.as_bytes(), b"definitely-wrong", c).map_err(|e| format!("Info-ZIP `zip -e` entry {n}: {e}"))?;
+                }
+                Ok(())
+            });
+            match r {
+                Ok(r) => Verdict::from_result(r),
+                Err(p) => Verdict::Fail(format!("PANIC: {p}")),
+            }
+        },
+    );
     ctx.enumerate::<CheckByte>("checkbyte", 512, &|i| CheckByte { time_variant: i >= 256, target: (i % 256) as u8 }, &|c: &CheckByte, info: &mut Info| {
         info.nontrivial = true;
         match catch(|| check_byte_family(c)) {
